@@ -350,10 +350,12 @@ def judge(args, agg, i5, pool, tier, nb, harness_problem):
         note = "not minimised"
         if n < MAX_MINIMISE and not args.no_minimise:
             m = minimise.Minimiser(replay_fn, cls)
-            if v["invariant"] == "I6":
-                # form independence is a statement about the reference alone: one probe suffices
-                ops = [["PROBE", v["sid"], v["path"]]]
-            out = m.run(sc, ops, v.get("step"))
+            out = None
+            if v["invariant"] in ("I6", "I7"):
+                # statements about the reference alone: one probe usually suffices
+                out = m.run(sc, [["PROBE", v["sid"], v["path"]]], None)
+            if out is None:
+                out = m.run(sc, ops, v.get("step"))
             if out is not None:
                 sc, ops, hit = out
                 note = "minimised with %d replays" % m.n_replays
